@@ -38,7 +38,7 @@ impl<M: RawMutex + 'static> MutexSut<M> {
 
 impl<M: RawMutex + 'static> Drop for MutexSut<M> {
     fn drop(&mut self) {
-        self.futs.clear();
+        self.futs.drop_live();
         self.guards.clear();
         unsafe { drop(Box::from_raw(self.raw)) };
     }
